@@ -38,8 +38,9 @@ def cases(quick):
             if kind in ('P', 'R') and not factory:
                 # a result which takes the parent a while to recreate, while the caller keeps asking whether the worker is done (for
                 # the remote kind: messages arriving on two connections are unpickled by two threads of the parent at the same time)
-                out.append({'kind': kind, 'factory': factory, 'target': 'ret_value', 'args': ['many'], 'kwargs': {}, 'what': 'polling-caller/value:many',
-                            'poll': True})
+                for v in ('slowobj', 'many'):
+                    out.append({'kind': kind, 'factory': factory, 'target': 'ret_value', 'args': [v], 'kwargs': {}, 'what': 'polling-caller/value:' + v,
+                                'poll': True})
             for run in (None, True, False):
                 out.append({'kind': kind, 'factory': factory, 'target': 'echo_args', 'args': ['r'], 'kwargs': {}, 'run': run, 'what': 'run:%s' % run})
                 out.append({'kind': kind, 'factory': factory, 'target': None, 'args': [], 'kwargs': {}, 'run': run, 'what': 'no-target/run:%s' % run})
